@@ -695,3 +695,8 @@ def t_count_lemma(eng):
 U_COUNT = Unit(P + '/lemma-count', [], t_count_lemma, SCH, kind='lemma')
 
 UNITS = [U_PULSE, U_IDX, U_MATCH, U_PULSES, U_CONT, U_CONNY, U_COUNT, C17.U_PC_ADD, C11.U_GROUND]
+
+
+# every joined end is registered with its partner (Geobj._add_conn, Connected_Geobj.add: contracts stated with C09): an end
+# that matches but is not registered gets no junction pulse, so the count clause needs them
+EXTRA_UNITS = [('contracts.C09', 'U_ADD_CONN')]
